@@ -118,10 +118,12 @@ struct sockaddr_storage { char b[128]; }; struct sockaddr;
 #define EHOSTUNREACH 113
 #define ETIMEDOUT 110
 #define IORA_MSG "message text dropped"
+bool G_w_counted;               /* G1 ghost: the gauge (sessionsCurrent) counts the witness session (set by bumpSess once it is in the table, cleared by closeNow) */
 unsigned G_err_calls, G_conncb_calls, G_conncbw_calls, G_closeNow_calls, G_freeaddr_calls, G_conncb_seq, G_closeNow_seq; void *G_freeaddr_arg;
 static inline void TcpEngine_err(TcpEngine *self, TransportError why) { (void)why; IORA_ASSERT(!self->_cbMutex.held, "CB1 error callback outside _cbMutex"); if (G_err_calls < 0x7fffffffu) G_err_calls++; }
 static inline void iora_cb_onConnect(TcpEngine *self, SessionId sid)
 { IORA_ASSERT(!self->_cbMutex.held && !self->_sessionRwMutex.held, "CB1 user callback runs outside the engine mutexes");
+  IORA_ASSERT(sid != G_WSID || G_w_counted, "G1 a session is announced (connect callback) only when the gauge of open sessions already counts it (the gauge never under-counts)");
   if (G_conncb_calls < 0x7fffffffu) G_conncb_calls++; if (sid == G_WSID && G_conncbw_calls < 0x7fffffffu) G_conncbw_calls++; G_conncb_seq = ++G_seq; }
 static inline SSL *iora_SSL_new(void *ctx) { IORA_ASSERT(ctx != 0, "SSL_new(): non-null context"); return nondet_bool() ? (SSL *)0 : (SSL *)malloc(1); }   /* may fail */
 static inline int iora_SSL_set_fd(SSL *ssl, int fd) { IORA_ASSERT(ssl != 0 && fd >= 0, "SSL_set_fd(): live SSL object, valid fd"); return 1; }
@@ -134,10 +136,11 @@ static inline const char *TcpEngine_lastErr(TcpEngine *self) { (void)self; retur
 unsigned G_acccb_calls, G_acccbw_calls; bool G_acccb_in_table; unsigned G_datacb_calls;
 static inline void iora_cb_onAccept(TcpEngine *self, SessionId sid)
 { IORA_ASSERT(!self->_cbMutex.held && !self->_sessionRwMutex.held, "CB1 user callback runs outside the engine mutexes");
+  IORA_ASSERT(sid != G_WSID || G_w_counted, "G1 a session is announced (accept callback) only when the gauge of open sessions already counts it (the gauge never under-counts)");
   if (G_acccb_calls < 0x7fffffffu) G_acccb_calls++; if (sid == G_WSID && G_acccbw_calls < 0x7fffffffu) G_acccbw_calls++;
   G_acccb_in_table = iora_smapN_lookup(&self->_sessions, sid) != 0; ++G_seq; }
 /* bumpSess(): sessionsCurrent.fetch_add(1), peak = max(peak, current) (CAS loop; here sequential) */
-static inline void TcpEngine_bumpSess(TcpEngine *self) { self->_atomicStats.sessionsCurrent++; if (self->_atomicStats.sessionsCurrent > self->_atomicStats.sessionsPeak) self->_atomicStats.sessionsPeak = self->_atomicStats.sessionsCurrent; }
+static inline void TcpEngine_bumpSess(TcpEngine *self) { if (iora_smapN_lookup(&self->_sessions, G_WSID) != 0 && !G_w_counted) G_w_counted = 1; self->_atomicStats.sessionsCurrent++; if (self->_atomicStats.sessionsCurrent > self->_atomicStats.sessionsPeak) self->_atomicStats.sessionsPeak = self->_atomicStats.sessionsCurrent; }
 static inline void TcpEngine_cancelConnectTimeout(TcpEngine *self, Session *s) { (void)self; if (nondet_bool()) s->connectTimeoutId = 0; }
 static inline void TcpEngine_scheduleHandshakeTimeout(TcpEngine *self, Session *s) { (void)self; if (nondet_bool()) s->handshakeTimeoutId = nondet_u64(); }
 /* closeNow: abstraction of the contract proved in unit tcp_close over the bounded tables: idempotent; marks closed, erases the fd tag and the
@@ -145,6 +148,8 @@ static inline void TcpEngine_scheduleHandshakeTimeout(TcpEngine *self, Session *
 static inline void TcpEngine_closeNow(TcpEngine *self, Session *s, TransportError why, const char *msg, int tlsErr)
 {
   if (!s || s->closed) return;
+  IORA_ASSERT(s->id != G_WSID || (G_w_counted && self->_atomicStats.sessionsCurrent >= 1), "G1 closeNow decrements a gauge that counts this session (its contract in unit tcp_close assumes sessionsCurrent >= 1; an uncounted session would wrap / never let the gauge return to zero)");
+  if (s->id == G_WSID) G_w_counted = 0;
   s->closed = true;
   if (G_closeNow_calls < 0x7fffffffu) G_closeNow_calls++; G_closeNow_seq = ++G_seq;
   SessionId sid = s->id; int fd = s->fd;
